@@ -26,7 +26,7 @@ var propC06 = &modelProp{
 	},
 	opts: RunOpts{SweepLevel: 1, SweepEveryOp: true, Control: true, Walk: true, FocusPaths: []string{"S", "F64"}},
 	nt:   func(e *Env) bool { return e.flags["rejected-update"] > 0 },
-	rule: "histories in which most writes are rejected: Validate failures (data-driven hooks), uniqueness conflicts on the 1st/2nd/3rd unique field (tiny value domains), batch members of another type, an insert into a collection that was never created, values that cannot be serialised (NaN, +Inf, -Inf in float fields, indexed / unique or not; a time.Time outside years 0-9999; a chan or func inside an interface{} field) in single and batch calls, with cache and async writes on and off. Oracle: the error class is the model's; after EVERY call - so in particular after every rejected one - the complete observation (Count, All, Get/GetByUUID/Exist of every uuid incl. cached reads, AssignIndex, search sweep, Control, and in sync mode the directory through the independent walker) equals the unchanged model. A quarter of the updates are read-modify-writes: the object handed to InsertOrUpdate is the very one a read (Get, All, Search) returned, modified in place - half of them on a handle restarted just before the read, so that the read is the first one of a cold handle; a rejected one must leave every read path unchanged. Non-trivial: >=1 rejected call that targets an already stored object (rejected update). Distinct by program hash.",
+	rule: "histories in which most writes are rejected: Validate failures (data-driven hooks), uniqueness conflicts on the 1st/2nd/3rd unique field (tiny value domains), batch members of another type, an insert into a collection that was never created, values that cannot be serialised (NaN, +Inf, -Inf in float fields, indexed / unique or not; a time.Time outside years 0-9999; a chan or func inside an interface{} field) in single and batch calls, with cache and async writes on and off. Oracle: the error class is the model's; after EVERY call - so in particular after every rejected one - the complete observation (Count, All, Get/GetByUUID/Exist of every uuid incl. cached reads, AssignIndex, search sweep, Control, and in sync mode the directory through the independent walker) equals the unchanged model. A quarter of the updates are read-modify-writes: the object handed to InsertOrUpdate is the very one a read (Get, All, Search) returned, modified in place - half of them on a handle restarted just before the read, so that the read is the first one of a cold handle; a rejected one must leave every read path unchanged. Storage half, in addition: after a failed single-object update the object reads as its old or its new value and the object count is unchanged (the no-rollback finding keeps the new state; anything else is reported); with the cache on All, Get and a search for the shown value agree per object; a faulted update is tried again and an acknowledged retry is on disk; a batch that returns a nil error has stored all its members. Non-trivial: >=1 rejected call that targets an already stored object (rejected update). Distinct by program hash.",
 }
 
 func init() { propC06.register() }
